@@ -595,12 +595,14 @@ def updateSchema (d : Data) (db rp mst : String) (fields : List FieldReq) : Step
     else done (setRP d dbi k (r.setMst { m with schema := applyFields m.schema fields }))
 
 /-- `pruneShardGroups`, first half of the loop body: if `id` lies between the ids of the first
-and the last shard of the group, mark the first shard whose id is ≥ `id` (`sort.Search`). -/
+and the last shard of the group, look at the first shard whose id is ≥ `id` (`sort.Search`) and
+mark it if it *is* the shard (`fix:` the ids of a group are not contiguous after ExpandGroups:
+the search used to mark the next larger id, a shard of another — possibly live — group). -/
 def markShardIn (id : Nat) (g : SG) : SG :=
   match g.shards.head?, g.shards.getLast? with
   | some f, some l =>
     if f.id ≤ id ∧ id ≤ l.id then
-      { g with shards := updFirst (fun s => s.id ≥ id) (fun s => { s with markDelete := true }) g.shards }
+      { g with shards := updFirst (fun s => s.id ≥ id) (fun s => { s with markDelete := s.markDelete || s.id = id }) g.shards }
     else g
   | _, _ => g
 
@@ -619,7 +621,7 @@ def markIndexIn (id : Nat) (g : IG) : IG :=
   match g.indexes.head?, g.indexes.getLast? with
   | some f, some l =>
     if f.id ≤ id ∧ id ≤ l.id then
-      { g with indexes := updFirst (fun s => s.id ≥ id) (fun s => { s with markDelete := true }) g.indexes }
+      { g with indexes := updFirst (fun s => s.id ≥ id) (fun s => { s with markDelete := s.markDelete || s.id = id }) g.indexes }
     else g
   | _, _ => g
 
